@@ -323,6 +323,7 @@ inductive Kind where
   | facts
   | hist (nchan : Nat) (reqs : List Req)
   | pair (nchan : Nat) (reqs : List Req)
+  | hw (src : String) (nchan : Nat) (ending : String) (reqs : List Req)
   | timing
   | commentFail | dropFail
   | mapPix (nchan npix : Nat)
@@ -343,6 +344,12 @@ def parseKind : P Kind := do
     kw "gated"; let _ ← nat
     kw "reqs"; let reqs ← list parseReq
     pure (.pair n reqs)
+  | "hw" => do
+    kw "src"; let src ← tok
+    kw "nchan"; let n ← nat
+    kw "end"; let e ← tok
+    kw "reqs"; let reqs ← list parseReq
+    pure (.hw src n e reqs)
   | "timing" => pure .timing
   | "fault" => do
     let f ← tok
@@ -429,8 +436,8 @@ def panicSig (cls : String) : String :=
 
 /-- life-cycle part of a line, judged by the C10 machinery; a request caller that never returns is this
 property's wedge -/
-def judgeSkeleton (sched : String) (r : RunOut) : Verdict :=
-  let ln : Line := { kind := "loop", opens := false, sched, out := .hang }
+def judgeSkeletonOf (kind : String) (opens : Bool) (sched : String) (r : RunOut) : Verdict :=
+  let ln : Line := { kind, opens, sched, out := .hang }
   if r.calls.any (fun c => C10.roleLetter c.1 == "R" && c.2 == 2) then
     .viol "C11:wedge a control request never returned (nobody receives the request, or the core loop is blocked on a reply nobody reads)"
   else match C10.judgeRun ln r.toks r.calls r.fin with
@@ -439,6 +446,8 @@ def judgeSkeleton (sched : String) (r : RunOut) : Verdict :=
       else if (v.splitOn "C10:hang").length > 1 then .viol "C11:wedge a call did not return while requests were being served"
       else .viol v
     | x => x
+
+def judgeSkeleton (sched : String) (r : RunOut) : Verdict := judgeSkeletonOf "loop" false sched r
 
 def chkRets (model impl : List Nat) : Option String :=
   if impl.contains 2 then some "C11:wedge a control request got no reply (watchdog)"
@@ -512,6 +521,22 @@ def runLine (ts : List String) : Verdict :=
             if r.probe == 1 then .viol "C11:data-stalled the source is active but a block fed after the requests was not processed"
             else match judgeSkeleton "pair" r with
               | .ok tags => .ok ((tags ++ ["pair", "rejected", "gated"]).eraseDups)
+              | v => v
+    | .hw src nchan ending reqs, .run r =>
+      -- requests served by the core loop of a hardware-style source (one assembler goroutine per getNextBlock)
+      if r.rets.contains 2 then .viol "C11:wedge a control request got no reply (watchdog)"
+      else
+        let model := (runReqs (RS.init nchan) reqs).2
+        if r.rets.length != model.length then .diff s!"hw history cut short: {r.rets.length} of {model.length} replies (probe {r.probe})"
+        else match firstDiff model r.rets 0 with
+          | some i =>
+            if r.rets.getD i 9 == 0 && model.getD i 9 == 1 then
+              .viol s!"C11:invalid-request-accepted request {i} must be answered with an error but was accepted"
+            else .diff s!"hw reply {i}: impl {r.rets.getD i 9} model {model.getD i 9}"
+          | none =>
+            if r.probe == 1 then .viol "C11:data-stalled requests were served but no further block was processed afterwards"
+            else match judgeSkeletonOf src (src == "abaco") "hw" r with
+              | .ok tags => .ok ((tags ++ ["hw", src, "end-" ++ ending, "gated", "request"]).eraseDups)
               | v => v
     | .commentFail, .run r =>
       if r.rets.contains 2 then .viol "C11:wedge a control request got no reply (watchdog)"
